@@ -36,6 +36,7 @@ def verify(wt, mutdir, name):
         log["suite_passes_with_change"] = rc == 0
         log["suite_summary"] = [l for l in out.splitlines() if l.startswith("test result")]
         log["warnings_with_change"] = out.count("warning:")
+        n = name.replace("-", "_")
         demo = "tests/demo_%s.rs" % n
         shutil.copy(os.path.join(mutdir, "demo.rs"), os.path.join(wt, demo))
         rc, out = sh("cargo test --offline --test demo_%s 2>&1" % n, cwd=wt)
